@@ -29,6 +29,7 @@ CONSTANTS Kind,          \* "lzma2" | "lzip"
           PanicUnits,    \* unit sequence numbers at which the worker panics (fail point)
           EmptyUnits,    \* unit sequence numbers that decode to zero bytes (empty LZIP members)
           DropAfter,     \* 99: drop only after end / error; k: caller drops after k chunks were returned
+          CallsAfterErr, \* the caller calls read() this many more times after the first error before dropping
           CloseLock, WakeOnError, EofIsError, PanicGuard
 
 Workers == 1..MaxWorkers
@@ -47,7 +48,7 @@ CH0 == [msgs |-> <<>>, senders |-> 1, rxAlive |-> TRUE]
 SH0 == [esOwner |-> 0, err |-> "none", shutdown |-> FALSE, active |-> 0]
 C0 == [pc |-> "new", state |-> "Reading", nextDisp |-> 0, nextRet |-> 0, lastSeq |-> NoneV,
        ooo |-> {}, inPos |-> 0, curLen |-> 0, spawned |-> 0, tmp |-> 0,
-       delivered |-> <<>>, result |-> "none", returned |-> 0]
+       delivered |-> <<>>, result |-> "none", returned |-> 0, errCalls |-> 0, failed |-> FALSE]
 W0 == [w \in Workers |-> [pc |-> "unborn", item |-> NoneV]]
 Init == Q = Q0 /\ CH = CH0 /\ SH = SH0 /\ C = C0 /\ W = W0
 
@@ -67,7 +68,7 @@ IsPanic(u) == u \in PanicUnits
 
 \* ------------------------------------------------------------------ coordinator helpers
 Goto(l) == [C EXCEPT !.pc = l]
-Ret(c, r) == [c EXCEPT !.pc = "idle", !.result = r]
+Ret(c, r) == [c EXCEPT !.pc = "idle", !.result = r, !.failed = @ \/ (r = "err")]
 \* a unit that decodes to zero bytes (an empty member, the lone terminator of an empty LZMA2 stream) makes
 \* read() recurse straight back into get_next_uncompressed_chunk
 IsEmpty(u) == u \in EmptyUnits \/ (Kind = "lzma2" /\ Len(Chunks) = 0)
@@ -89,10 +90,12 @@ CNew ==   \* LZMA2ReaderMT::new spawns the first worker; LZIPReaderMT::new spawn
        ELSE /\ C' = [C EXCEPT !.pc = "idle", !.state = "Dispatching"] /\ UNCHANGED <<CH, W>>
   /\ UNCHANGED <<Q, SH>>
 
-CanCall == C.pc = "idle" /\ C.result \notin {"eof", "err"} /\ (DropAfter = 99 \/ C.returned < DropAfter)
+CanCall == /\ C.pc = "idle" /\ (DropAfter = 99 \/ C.returned < DropAfter)
+           /\ (C.result \notin {"eof", "err"} \/ (C.result = "err" /\ C.errCalls < CallsAfterErr))
 
 CCall ==    \* silent: read() with an exhausted current chunk enters get_next_uncompressed_chunk
-  /\ CanCall /\ C' = Goto("L0") /\ UNCHANGED <<Q, CH, SH, W>>
+  /\ CanCall /\ C' = [C EXCEPT !.pc = "L0", !.errCalls = IF C.result = "err" THEN @ + 1 ELSE @]
+  /\ UNCHANGED <<Q, CH, SH, W>>
 
 CL0Hit ==   \* silent: out_of_order_chunks.remove(next) hit
   /\ C.pc = "L0" /\ C.nextRet \in C.ooo
@@ -226,7 +229,8 @@ CRecv ==    \* Recv(CH), blocking
 
 \* ---- Drop: AStore(shutdown); close(): [Lock(Q)] AStore(closed) [Unlock(Q)] NotifyAll(CV);
 \*      then the fields: DropReceiver(CH), DropSender(CH)
-CanDrop == C.pc = "idle" /\ (C.result \in {"eof", "err"} \/ (DropAfter # 99 /\ C.returned >= DropAfter))
+CanDrop == C.pc = "idle" /\ ~CanCall
+           /\ (C.result \in {"eof", "err"} \/ (DropAfter # 99 /\ C.returned >= DropAfter))
 CDrop1 == /\ CanDrop /\ SH' = [SH EXCEPT !.shutdown = TRUE]
           /\ C' = Goto(IF CloseLock THEN "X2l" ELSE "X2") /\ UNCHANGED <<Q, CH, W>>
 CDrop2l == /\ C.pc = "X2l" /\ Q.owner = 0 /\ Q' = [Q EXCEPT !.owner = CO] /\ C' = Goto("X2")
@@ -339,6 +343,8 @@ NoFalseSuccess ==
                       /\ \A u \in 0..(NUnits - 1) : ~IsBad(u) /\ ~IsPanic(u)
                       /\ ~SourceFails
                       /\ (Kind = "lzma2" => Terminated)
+\* C09: a stream that has failed stays failed: no later call reports data or end of stream
+StickyError == (C.failed /\ C.pc = "idle") => C.result = "err"
 \* C10: never more workers than the limit
 WorkerBound == C.spawned <= MaxWorkers /\ SH.active <= C.spawned
                /\ Cardinality({w \in Workers : W[w].pc \notin {"unborn", "exit"}}) <= MaxWorkers
